@@ -347,7 +347,7 @@ var universes = map[string]universe{
 	// two nested prefixes with a gap, all flag combinations, two faces: explored to a fixpoint
 	"gap": {prefixes: []string{"/a", "/a/b/c"}, faces: []uint64{1, 2}, origins: []uint64{0}, costs: []uint64{1}, flags: []uint64{0, ci, cap_, ci | cap_}},
 	// root + chain, one face, two origins and costs (min-cost, per-origin removal)
-	"chain": {prefixes: []string{"/", "/a", "/a/b", "/a/b/c"}, faces: []uint64{1}, origins: []uint64{0, 128}, costs: []uint64{1, 5}, flags: []uint64{ci, 0, ci | cap_}},
+	"chain": {prefixes: []string{"/", "/a", "/a/b", "/a/b/c"}, faces: []uint64{1}, origins: []uint64{0, 128}, costs: []uint64{0, 5}, flags: []uint64{ci, 0, ci | cap_}},
 	// three levels, two faces, capture in the middle
 	"mid": {prefixes: []string{"/a", "/a/b", "/a/b/c"}, faces: []uint64{1, 2}, origins: []uint64{0}, costs: []uint64{1, 5}, flags: []uint64{ci, cap_, 0}},
 	// the full alphabet of the design
